@@ -3,7 +3,10 @@
 use crate::instr::*;
 use crate::mapdrv::{apply_directive, disarm, hex, parse_u64};
 use hashbrown::HashSet;
+use rayon::prelude::*;
 use std::fmt::Write as _;
+use std::sync::atomic::{AtomicUsize, Ordering};
+use std::sync::Mutex;
 use std::panic::{catch_unwind, AssertUnwindSafe};
 
 pub type Set<K> = HashSet<K, PlanBuild, Ledger>;
@@ -206,6 +209,121 @@ fn single_op<K: KeyT>(m: &mut Set<K>, w: &[&str], chk: &mut Vec<String>, held: &
             }
             list_text(&got)
         }
+        // ---------------- rayon (C19) ----------------
+        "spar_iter" => {
+            let pool = pool_of(n(1));
+            let mut got: Vec<(u64, u64)> = pool.install(|| m.par_iter().map(|k| (k.id(), k.stamp())).collect());
+            got.sort();
+            if got != sorted_owned(m) {
+                chk.push("spar_iter: the parallel iterator does not deliver every element exactly once".into());
+            }
+            list_text(&got)
+        }
+        "sinto_par_iter" => {
+            let pool = pool_of(n(1));
+            let want = sorted_owned(m);
+            let old = std::mem::replace(m, HashSet::with_hasher_in(PlanBuild::default(), Ledger));
+            let got: Vec<K> = pool.install(|| old.into_par_iter().collect());
+            let mut l: Vec<(u64, u64)> = got.iter().map(|k| (k.id(), k.stamp())).collect();
+            l.sort();
+            if l != want {
+                chk.push("sinto_par_iter: the parallel iterator does not deliver every element exactly once".into());
+            }
+            held.push(Box::new(got));
+            list_text(&l)
+        }
+        "spar_drain" => {
+            // a consumer that accepts at most `take` elements and then short-circuits; whatever it is
+            // handed after that is not kept (the consumer drops it)
+            let pool = pool_of(n(1));
+            let take = n(2) as usize;
+            let want = sorted_owned(m);
+            let alloc_before = m.verif_dump().alloc;
+            let count = AtomicUsize::new(0);
+            let got: Mutex<Vec<K>> = Mutex::new(Vec::new());
+            let extra: Mutex<Vec<(u64, u64)>> = Mutex::new(Vec::new());
+            pool.install(|| {
+                let _ = m.par_drain().try_for_each(|k| {
+                    let c = count.fetch_add(1, Ordering::SeqCst);
+                    if c < take {
+                        got.lock().unwrap().push(k);
+                    } else {
+                        extra.lock().unwrap().push((k.id(), k.stamp()));
+                    }
+                    if c + 1 >= take {
+                        Err(())
+                    } else {
+                        Ok(())
+                    }
+                });
+            });
+            let got = got.into_inner().unwrap();
+            let mut l: Vec<(u64, u64)> = got.iter().map(|k| (k.id(), k.stamp())).collect();
+            l.sort();
+            let mut all = l.clone();
+            all.extend(extra.into_inner().unwrap());
+            all.sort();
+            if !is_sub_multiset(&all, &want) {
+                chk.push(format!("spar_drain: the parallel drain delivered {:?}, not a sub-multiset of the stored {:?}", all, want));
+            }
+            if take >= want.len() && all != want {
+                chk.push("spar_drain: the parallel drain was consumed completely but did not deliver every element exactly once".into());
+            }
+            if l.len() > take {
+                chk.push("spar_drain: more elements received than accepted".into());
+            }
+            if !m.is_empty() || m.len() != 0 || m.iter().next().is_some() {
+                chk.push("spar_drain: the set is not empty after the parallel drain".into());
+            }
+            if m.verif_dump().alloc != alloc_before {
+                chk.push("spar_drain: the parallel drain did not keep the allocation".into());
+            }
+            held.push(Box::new(got));
+            list_text(&l)
+        }
+        "spar_extend" => {
+            // ParallelExtend / FromParallelIterator exist for sets with the Global allocator only:
+            // the elements move into such a set (same hasher), are extended there, and move back
+            let pool = pool_of(n(1));
+            let ids: Vec<(u64, u64)> = w[2..]
+                .iter()
+                .map(|t| {
+                    let p: Vec<&str> = t.split(':').collect();
+                    (parse_u64(p[0]), parse_u64(p[1]))
+                })
+                .collect();
+            let mut want = sorted_owned(m);
+            for (k, st) in &ids {
+                if !want.iter().any(|e| e.0 == *k) {
+                    want.push((*k, *st));
+                }
+            }
+            want.sort();
+            let mut g: HashSet<K, PlanBuild> = HashSet::with_hasher(PlanBuild::default());
+            g.extend(m.drain());
+            let items: Vec<K> = ids.iter().map(|(k, st)| K::mk(*k, *st)).collect();
+            pool.install(|| g.par_extend(items));
+            let mut got: Vec<(u64, u64)> = g.iter().map(|k| (k.id(), k.stamp())).collect();
+            got.sort();
+            if got != want || g.len() != want.len() {
+                chk.push(format!("spar_extend: the parallel extend gives {:?}, the sequential extend {:?}", got, want));
+            }
+            // from_par_iter of the same items against from_iter
+            let fresh = || -> Vec<K> { ids.iter().map(|(k, st)| K::mk(*k, *st)).collect() };
+            let items = fresh();
+            let fp: HashSet<K, PlanBuild> = pool.install(|| HashSet::from_par_iter(items));
+            let fs: HashSet<K, PlanBuild> = fresh().into_iter().collect();
+            let sorted_g = |x: &HashSet<K, PlanBuild>| {
+                let mut v: Vec<(u64, u64)> = x.iter().map(|k| (k.id(), k.stamp())).collect();
+                v.sort();
+                v
+            };
+            if sorted_g(&fp) != sorted_g(&fs) {
+                chk.push(format!("spar_extend: from_par_iter gives {:?}, the sequential from_iter {:?} (parallel)", sorted_g(&fp), sorted_g(&fs)));
+            }
+            m.extend(g.drain());
+            "unit".into()
+        }
         "len" => format!("num {}", m.len()),
         "dropmap" => {
             let old = std::mem::replace(m, HashSet::with_hasher_in(PlanBuild::default(), Ledger));
@@ -224,6 +342,25 @@ fn sorted_owned<K: KeyT>(s: &Set<K>) -> Vec<(u64, u64)> {
     let mut v: Vec<(u64, u64)> = s.iter().map(|k| (k.id(), k.stamp())).collect();
     v.sort();
     v
+}
+
+fn pool_of(threads: u64) -> rayon::ThreadPool {
+    rayon::ThreadPoolBuilder::new().num_threads(threads as usize).build().unwrap()
+}
+
+/// `small` (sorted) is contained in `big` (sorted) with multiplicities
+fn is_sub_multiset(small: &[(u64, u64)], big: &[(u64, u64)]) -> bool {
+    let mut j = 0;
+    for e in small {
+        while j < big.len() && big[j] < *e {
+            j += 1;
+        }
+        if j >= big.len() || big[j] != *e {
+            return false;
+        }
+        j += 1;
+    }
+    true
 }
 
 fn binary_op<K: KeyT>(a: &mut Set<K>, b: &Set<K>, w: &[&str], chk: &mut Vec<String>) -> String {
@@ -319,6 +456,48 @@ fn binary_op<K: KeyT>(a: &mut Set<K>, b: &Set<K>, w: &[&str], chk: &mut Vec<Stri
         "sub_assign" => {
             *a -= b;
             "unit".into()
+        }
+        // ---------------- rayon (C19): parallel set algebra against the sequential one ----------------
+        "spar_union" | "spar_intersection" | "spar_difference" | "spar_symmetric_difference" => {
+            let pool = pool_of(parse_u64(w[1]));
+            let (mut par, mut seq): (Vec<(u64, u64)>, Vec<(u64, u64)>) = match w[0] {
+                "spar_union" => (pool.install(|| a.par_union(b).map(|k| (k.id(), k.stamp())).collect()), refs::<K>(a.union(b))),
+                "spar_intersection" => (pool.install(|| a.par_intersection(b).map(|k| (k.id(), k.stamp())).collect()), refs::<K>(a.intersection(b))),
+                "spar_difference" => (pool.install(|| a.par_difference(b).map(|k| (k.id(), k.stamp())).collect()), refs::<K>(a.difference(b))),
+                _ => (pool.install(|| a.par_symmetric_difference(b).map(|k| (k.id(), k.stamp())).collect()), refs::<K>(a.symmetric_difference(b))),
+            };
+            par.sort();
+            seq.sort();
+            // an element present in both sets may be taken from either one (the sequential and the
+            // parallel union / intersection choose differently): compare the elements, and require
+            // every delivered object to be stored in one of the sets
+            let by_id = w[0] == "spar_union" || w[0] == "spar_intersection";
+            let same = if by_id {
+                par.iter().map(|e| e.0).collect::<Vec<_>>() == seq.iter().map(|e| e.0).collect::<Vec<_>>()
+            } else {
+                par == seq
+            };
+            if !same {
+                chk.push(format!("{}: the parallel result {:?} differs from the sequential {:?}", w[0], par, seq));
+            }
+            let (sa, sb) = (sorted_owned(a), sorted_owned(b));
+            if par.iter().any(|e| sa.binary_search(e).is_err() && sb.binary_search(e).is_err()) {
+                chk.push(format!("{}: the parallel iterator delivered an object stored in neither set", w[0]));
+            }
+            list_text(&par)
+        }
+        "spar_is_subset" | "spar_is_superset" | "spar_is_disjoint" | "spar_eq" => {
+            let pool = pool_of(parse_u64(w[1]));
+            let (par, seq) = match w[0] {
+                "spar_is_subset" => (pool.install(|| a.par_is_subset(b)), a.is_subset(b)),
+                "spar_is_superset" => (pool.install(|| a.par_is_superset(b)), a.is_superset(b)),
+                "spar_is_disjoint" => (pool.install(|| a.par_is_disjoint(b)), a.is_disjoint(b)),
+                _ => (pool.install(|| a.par_eq(b)), *a == *b),
+            };
+            if par != seq {
+                chk.push(format!("{}: the parallel predicate returned {} but the sequential one {}", w[0], par, seq));
+            }
+            format!("bool {}", par as u8)
         }
         other => panic!("unknown binary set op {}", other),
     }
